@@ -806,7 +806,15 @@ where
     // Simply concatenate operator and expression without space
     let mut result = allocator.nil();
 
-    for &child in children.iter() {
+    for (i, &child) in children.iter().enumerate() {
+        let signed_operand = i > 0
+            && first_token_index(child, ctx).is_some_and(|t| {
+                matches!(ctx.tokens[t].kind, TokenKind::OpMinus | TokenKind::OpSum)
+            });
+        if signed_operand {
+            // `- -x`: the parser rejects consecutive operators without whitespace
+            result = result.append(allocator.space());
+        }
         result = result.append(cst_to_doc(child, ctx, allocator));
     }
 
